@@ -48,13 +48,15 @@ type c31Plan struct {
 	PeerRekey   []int       `json:"peer_rekey"`   // refpeer starts a re-key when it has read this many application packets
 	KexDelay    []int       `json:"kex_delay"`    // per Go KEXINIT (cyclic): 0 none, 1 hold the reply until the Go writers stall, 2 yields
 	Yield       int         `json:"yield"`
+	WriterYield int         `json:"writer_yield"` // Go writers: 0 never yield, 1 after every packet, 2 after every 4th
 	Seed        uint64      `json:"seed"`
 }
 
 func genC31Writer(t *rapid.T, label string, peer bool) c31Writer {
 	kinds := []string{"greq", "greq", "chdata", "chdata", "chreq", "greqr"}
 	if peer {
-		kinds = []string{"greq", "chdata"}
+		// greqr and ping make the Go side answer (REQUEST_FAILURE, pong) while it re-keys
+		kinds = []string{"greq", "chdata", "greqr", "ping"}
 	}
 	w := c31Writer{Kind: rapid.SampledFrom(kinds).Draw(t, label+".kind")}
 	w.N = rapid.IntRange(1, 40).Draw(t, label+".n")
@@ -105,7 +107,11 @@ func genC31Plan(t *rapid.T) *c31Plan {
 	}
 	np := rapid.IntRange(0, 3).Draw(t, "npeerwriters")
 	for i := 0; i < np; i++ {
-		p.PeerWriters = append(p.PeerWriters, genC31Writer(t, fmt.Sprintf("pw%d", i), true))
+		w := genC31Writer(t, fmt.Sprintf("pw%d", i), true)
+		if p.Mode == "gogo" && (w.Kind == "ping" || w.Kind == "greqr") {
+			w.Kind = "greq"
+		}
+		p.PeerWriters = append(p.PeerWriters, w)
 	}
 	// bound the total volume so that a history costs at most ~40 re-keys
 	limit := func(ws []c31Writer, th uint64) {
@@ -166,6 +172,7 @@ func genC31Plan(t *rapid.T) *c31Plan {
 		p.KexDelay[0] = 1
 	}
 	p.Yield = rapid.IntRange(0, 2).Draw(t, "yield")
+	p.WriterYield = rapid.SampledFrom([]int{0, 1, 1, 2}).Draw(t, "writerYield")
 	p.Seed = rapid.Uint64().Draw(t, "seed")
 	return p
 }
@@ -213,6 +220,9 @@ type orderCheck struct {
 func newOrderCheck(ws []c31Writer, base uint32) *orderCheck {
 	o := &orderCheck{next: map[uint32]uint32{}, sizes: map[uint32]int{}, want: map[uint32]uint32{}, done: make(chan struct{})}
 	for i, w := range ws {
+		if w.Kind == "ping" {
+			continue
+		}
 		id := base + uint32(i)
 		o.sizes[id] = w.Size
 		o.want[id] = uint32(w.N)
@@ -304,14 +314,15 @@ type c31Run struct {
 	fromGo *orderCheck // Go writers -> refpeer (wire order)
 	toGo   *orderCheck // refpeer writers -> Go application
 
-	started, finished  atomic.Int32   // Go writers
-	attempted, done    atomic.Int64   // Go writer packets
-	epochMin, epochMax map[uint32]int // per Go writer: first/last key epoch in which one of its packets was on the wire
-	wantRekey          atomic.Bool
-	rekeyIdx           int
-	pong               chan struct{}
-	chanOf             map[uint32]uint32 // refpeer channel id -> Go channel id (from CHANNEL_OPEN)
-	peerErr            atomic.Value
+	started, finished   atomic.Int32   // Go writers
+	attempted, done     atomic.Int64   // Go writer packets
+	attemptedNR, doneNR atomic.Int64   // ... of writers that do not wait for replies
+	epochMin, epochMax  map[uint32]int // per Go writer: first/last key epoch in which one of its packets was on the wire
+	wantRekey           atomic.Bool
+	rekeyIdx            int
+	pong                chan struct{}
+	chanOf              map[uint32]uint32 // refpeer channel id -> Go channel id (from CHANNEL_OPEN)
+	peerErr             atomic.Value
 }
 
 func (r *c31Run) fail(format string, a ...any) {
@@ -446,7 +457,9 @@ func (r *c31Run) delayKexReply() {
 				break
 			}
 			if now.Sub(lastChange) > 4*time.Millisecond {
-				if active > 0 && r.attempted.Load() > cur && cur-base > 0 {
+				// a writer that does not wait for a reply can only be stuck in
+				// its write call here because the pending queue is full
+				if active > 0 && r.attemptedNR.Load() > r.doneNR.Load() {
 					r.stats.overflow++
 				}
 				break
@@ -493,9 +506,11 @@ func (r *c31Run) peerLoop() {
 				c.WritePacket(mx.RequestSuccess(echo))
 			}
 		case mx.MsgPong:
-			select {
-			case r.pong <- struct{}{}:
-			default:
+			if len(p) == 8 && string(p[5:]) == "end" {
+				select {
+				case r.pong <- struct{}{}:
+				default:
+				}
 			}
 		}
 		if r.wantRekey.CompareAndSwap(true, false) {
@@ -691,6 +706,9 @@ func runC31Refpeer(p *c31Plan) (string, c31Stats, error) {
 			for k := 0; k < w.N; k++ {
 				rec := c31Record(i, uint32(k), w.Size)
 				r.attempted.Add(1)
+				if w.Kind != "greqr" {
+					r.attemptedNR.Add(1)
+				}
 				var err error
 				switch w.Kind {
 				case "greq":
@@ -713,10 +731,16 @@ func runC31Refpeer(p *c31Plan) (string, c31Stats, error) {
 					_, err = chans[i].ch.SendRequest("q", false, rec)
 				}
 				r.done.Add(1)
+				if w.Kind != "greqr" {
+					r.doneNR.Add(1)
+				}
 				prog.Tick()
 				if err != nil {
 					r.fail("writer %d (%s) #%d: write failed: %v", i, w.Kind, k, err)
 					return
+				}
+				if p.WriterYield == 1 || p.WriterYield == 2 && k%4 == 3 {
+					runtime.Gosched()
 				}
 			}
 		})
@@ -755,10 +779,13 @@ func runC31Refpeer(p *c31Plan) (string, c31Stats, error) {
 			for k := 0; k < w.N; k++ {
 				rec := c31Record(wid, uint32(k), w.Size)
 				var err error
-				if w.Kind == "chdata" {
+				switch w.Kind {
+				case "chdata":
 					err = s.Peer.WritePacket(mx.Data(goChan, rec))
-				} else {
-					err = s.Peer.WritePacket(mx.GlobalRequest("p", false, rec))
+				case "ping":
+					err = s.Peer.WritePacket(mx.Ping(rec[:8]))
+				default:
+					err = s.Peer.WritePacket(mx.GlobalRequest("p", w.Kind == "greqr", rec))
 				}
 				if err != nil {
 					return // link closed by a failure elsewhere
@@ -987,7 +1014,7 @@ func runC31GoGo(p *c31Plan) (string, c31Stats, error) {
 					rec := c31Record(wid, uint32(k), w.Size)
 					var err error
 					switch w.Kind {
-					case "greq", "greqr":
+					case "greq", "greqr", "ping":
 						_, _, err = me.conn.SendRequest("w", false, rec)
 					case "chdata":
 						_, err = ch.Write(rec)
@@ -999,7 +1026,7 @@ func runC31GoGo(p *c31Plan) (string, c31Stats, error) {
 						fail("%s writer %d (%s) #%d: %v", name, wid, w.Kind, k, err)
 						return
 					}
-					if p.Yield > 0 && k%4 == 0 {
+					if p.WriterYield == 1 || p.WriterYield == 2 && k%4 == 3 {
 						runtime.Gosched()
 					}
 				}
@@ -1068,6 +1095,11 @@ func TestC31(t *testing.T) {
 	var failed string
 	var inconc error
 	runOne := func(p *c31Plan) {
+		if _, listed := knownFinding(c31F132); listed && c31F132Class(p) {
+			// exactly the recorded failing class is left out; the rest of the history still runs
+			c.Excluded()
+			c31F132Exclude(p)
+		}
 		writeCase("C31", p)
 		v, st, err := runC31(p)
 		if err != nil {
@@ -1098,6 +1130,18 @@ func TestC31(t *testing.T) {
 		}
 		if c.WantSample() {
 			c.Sample(map[string]any{"plan": p, "go_rekeys": st.goKex, "peer_initiated": st.peerInitiated, "overflow_holds": st.overflow, "completed_writes_during_held_kex": st.queuedAfterKex})
+		}
+	}
+	if os.Getenv("VF_REPLAY_CASE") == "" {
+		writeCase("C31", map[string]any{"witness": "F132", "pings_ahead_of_kexinit": c31F132Threshold})
+		v, err := c31F132Report(c.Known, c.Class)
+		if err != nil {
+			c.Inconclusive(err.Error())
+			t.Fatalf("VF-INCONCLUSIVE: property=C31 %v", err)
+		}
+		if v != "" {
+			c.Violation(v, "")
+			t.Fatalf("VF-VIOLATION: property=C31 %s", v)
 		}
 	}
 	if path := os.Getenv("VF_REPLAY_CASE"); path != "" {
